@@ -1,9 +1,11 @@
 """C04 — FBA returns a true optimum, or a true verdict that none exists."""
-from contracts import c04_status, c15_dictlist, c04_solution as CS  # noqa
+from contracts import c04_status, c15_dictlist, c01_lp, c04_solution as CS  # noqa
 from props._generic import run_property, replay_with_driver
 
 LEVEL = "other"
-KEYS = ["check_solver_status", "assert_optimal", "Model.slim_optimize", "Model.optimize", "get_solution:body"]
+KEYS = ["check_solver_status", "assert_optimal", "Model.slim_optimize", "Model.optimize", "get_solution:body",
+        # the encoding of flux bounds that makes `every flux bound is satisfied` true of an LP solution (C01 kernel, glue (i)-(iii))
+        "Reaction.update_variable_bounds", "Reaction.bounds@setter", "Reaction.lower_bound@setter", "Reaction.upper_bound@setter"]
 
 
 def lemmas():
